@@ -1,0 +1,26 @@
+//go:build verif
+
+// Contracts for govc (contract-based deductive verification, see /verif/DESIGN.md).
+// Comment-only file: it adds no code and is compiled only with -tags verif.
+
+package clickhouse_transpiler
+
+// TraceQL attribute conditions: the HAVING clause defines the bit-set alias
+// (groupBitOr(...) as bsCond) at its first leaf and refers to it by name at the
+// later ones; a.isAliased says whether the statement being built already
+// defines it. One plan object is processed once per portion of a complex
+// request: every execution must start, and therefore end, with the flag down,
+// otherwise the next statement refers to an alias it never defines.
+//@ func (*AttrConditionPlanner).getCond [C14]
+//@   modifies a.isAliased
+//@   ensures flag-only-raised: old(a.isAliased) ==> a.isAliased
+//@   loop 1:
+//@     invariant old(a.isAliased) ==> a.isAliased
+//@     modifies a.isAliased, elems(subs)
+//@ func (*AttrConditionPlanner).maybeCreateWhere
+//@   modifies a.sqlConds, a.where
+//@ func (*AttrConditionPlanner).aggregator
+//@   modifies a.AggregatedAttr, a.where
+//@ func (*AttrConditionPlanner).Process [C14]
+//@   requires starts-unaliased: !a.isAliased
+//@   ensures ends-unaliased: result1 == nil ==> !a.isAliased
